@@ -2,7 +2,10 @@ use crate::native_types::NativeType;
 use crate::CompilationError;
 use crate::Identifier;
 use itertools::Itertools;
+#[cfg(not(xray_verif))]
 use std::collections::HashMap;
+#[cfg(xray_verif)]
+use crate::verif::CtHashMap as HashMap;
 use std::fmt::{Debug, Display, Formatter};
 use std::iter::FromIterator;
 use std::sync::Arc;
